@@ -61,7 +61,8 @@ G12sBad(r) ==
             e2 == G12sE(x.hash, q)
             Q2 == PtOf(x.pub)
         IN IF ~G12sSigInRange(rs2[1], rs2[2], q) THEN x.rc # 0
-           ELSE IF x.sig = r.sig /\ x.pub = r.pub /\ Eq(e2, e) THEN x.rc = r.rcVerify
+           \* e and q - e give opposite points C, hence the same abscissa: the equation accepts both (anchor g12s_A1_negated_hash)
+           ELSE IF x.sig = r.sig /\ x.pub = r.pub /\ (Eq(e2, e) \/ Eq(Add(e2, e), q)) THEN x.rc = r.rcVerify
            ELSE IF ~EB!IsOnCurve(E, Q2[1], Q2[2]) THEN TRUE                       \* outside the precondition of Verify
            ELSE IF HeavyAlt(r, i) THEN (x.rc = 0) = G12sVerifyEq(E, P, q, e2, rs2[1], rs2[2], Q2)
            ELSE x.rc # 0
